@@ -1,6 +1,6 @@
 (* Case runner for C06. *)
 From Coq Require Import QArith.
-From PV Require Import M_Filter M_Prune M_TagFilter S_Filter S_Prune S_TagFilter R_Filter R_Driver Gen.Gen_UnitTable.
+From PV Require Import M_Driver M_Filter M_Prune M_TagFilter S_Filter S_Prune S_TagFilter R_Filter R_Driver Gen.Gen_UnitTable.
 Open Scope Z_scope.
 Open Scope string_scope.
 
@@ -15,6 +15,7 @@ Definition units_of (t : term) : list (string * string) := map (fun e => (gs (gn
 Definition run_C06 (i : term) : term :=
   let op := gs (gn i 0) in
   if String.eqb op "e2e" then run_e2e i else
+  if String.eqb op "numunits" then TL (map (fun ku => TL [TS (fst ku); TS (snd ku)]) (M_Driver.num_label_units (profile_of (gn i 1)))) else
   let p := profile_of (gn i 1) in
   if String.eqb op "names" then
     let '(p', (fm, im, hm, hnm)) :=
@@ -60,6 +61,7 @@ Definition all_rx_ok (tbl : term) (c : af_cfg) : bool :=
 Definition spec_C06 (i o : term) : bool :=
   let op := gs (gn i 0) in
   if String.eqb op "e2e" then existsb (Z.eqb 900) (cls_e2e i) || spec_e2e i o else
+  if String.eqb op "numunits" then term_eqb o (run_C06 i) else
   let p := profile_of (gn i 1) in
   let p' := with_obs p o 1 in
   if String.eqb op "names" then
